@@ -86,6 +86,33 @@ def impulseResponse (s : Setup) (w : Rat) (x u : List Rat) : Rat × Rat :=
   (w / lamf s, frac (-(1/4 : Rat) + kernelTurns s x u))
 
 
+/-! ### One propagator object used repeatedly: the focal length can be re-assigned between calls -/
+
+/-- The `focal_length` argument: a constant, or a function of the wavelength (here `a + b·λ`). -/
+inductive FocalSpec where
+  | const (a : Rat)
+  | affine (a b : Rat)
+deriving Repr, DecidableEq
+
+/-- `evaluate_parameter(self.focal_length, …, wavelength)`. -/
+def FocalSpec.eval : FocalSpec → Rat → Rat
+  | .const a, _ => a
+  | .affine a b, lam => a + b * lam
+
+/-- The state of a `FraunhoferPropagator` object that matters for its results: pupil grid and the
+*current* focal length.  (The instance cache is transparent: the setter clears it.) -/
+structure Session where
+  pupil : RegGrid
+  focalLength : FocalSpec
+deriving Repr
+
+/-- `prop.focal_length = f` (the setter; clears the cache). -/
+def Session.setFocalLength (s : Session) (f : FocalSpec) : Session := { s with focalLength := f }
+
+/-- The instance data used by a call at wavelength `lam`: always derived from the current focal length. -/
+def Session.instanceAt (s : Session) (lam : Rat) : Setup :=
+  { lam := lam, f := s.focalLength.eval lam, pupil := s.pupil }
+
 /-! ### The two focal-grid constructors of `hcipy/field/util.py` -/
 
 /-- `np.round`: round half to even. -/
